@@ -1,9 +1,37 @@
-(* C13 property theorems (statements closed by [exact]); filled as the proofs land. *)
-From Tbfmm Require Import Base.Prelude Index.MortonDefs Tree.GroupDefs Tree.BuildDefs Tree.Invariant Tree.ExportDefs.
+(* C13 — rebuild re-bins moved particles and preserves identity.  Proofs in Tree/ExportProofs.v, Tree/BuildProofs.v, Spec/ExactlyOnce.v. *)
+From Tbfmm Require Import Base.Prelude Index.MortonDefs Index.MortonProofs Index.ListsDefs Index.ListsCapacity Tree.GroupDefs Tree.BuildDefs
+     Tree.Invariant Tree.ExportDefs Tree.ExportProofs Exec.ExecDefs Spec.Elem Spec.Kernel Spec.ExactlyOnce.
 Local Open Scope Z_scope.
 
+(* after positions have been edited, rebuild yields a tree satisfying the whole invariant for the NEW leaf indices: every
+   particle keeps its original index, is stored once, in the leaf of its new position *)
+Theorem C13_rebuild_ok : forall par H B mode idx', (forall a b, a <= b -> par a <= par b) -> (forall a, 0 <= a -> 0 <= par a) ->
+  1 <= H -> 1 <= B -> idx' <> [] -> Forall (fun c => 0 <= c) idx' ->
+  tree_ok par H B mode (rebuild par H B mode idx') /\ particles_ok idx' (rebuild par H B mode idx').
+Proof. exact rebuild_ok. Qed.
+Print Assumptions C13_rebuild_ok.
+
+(* any history of move/rebuild cycles *)
+Theorem C13_rebuild_cycles : forall par H B mode (hist : list (list Z)), (forall a b, a <= b -> par a <= par b) -> (forall a, 0 <= a -> 0 <= par a) ->
+  1 <= H -> 1 <= B -> Forall (fun idx' => idx' <> [] /\ Forall (fun c => 0 <= c) idx') hist ->
+  Forall (fun idx' => tree_ok par H B mode (rebuild par H B mode idx') /\ particles_ok idx' (rebuild par H B mode idx')) hist.
+Proof. exact rebuild_cycles. Qed.
+Print Assumptions C13_rebuild_cycles.
+
+(* a subsequent execution on the rebuilt tree adds exactly one more full interaction: every other particle once *)
+Theorem C13_execute_after_rebuild : forall d H B mode s idx', (0 < d)%nat ->
+  1 <= H -> 1 <= B -> idx' <> [] -> Forall (fun i => 0 <= i < 2 ^ ((H - 1) * dz d)) idx' -> s <= 2 ->
+  let t := rebuild (parent d) H B mode idx' in
+  forall p q, 0 <= p < zlen idx' -> 0 <= q < zlen idx' ->
+    reached (run (H - 1) (execute d false s 63 t) st0) p q = (if p =? q then 0%nat else 1%nat).
+Proof.
+  intros d H B mode s idx' Hd HH HB Hne Hr Hs t.
+  pose proof (fun l t Hl Ht => ilist_cell_capacity d false l t Hd Hl Ht) as Hcap.
+  exact (proj2 (fmm_exactly_once_build d H B mode s idx' Hd Hcap HH HB Hne Hr Hs)).
+Qed.
+Print Assumptions C13_execute_after_rebuild.
+
 Example C13_example :
-  let t := build (parent 3) 3 2 false [5;5;63;0;9;12;9] in
-  map (fun i => export_get Z (-1) (fun i _ => i) 1 t i 0) (zseq 7) = zseq 7.
+  let t := rebuild (parent 3) 3 2 false [5;5;63;0;9;12;9] in
+  tree_okb (parent 3) 3 2 false t = true.
 Proof. vm_compute. reflexivity. Qed.
-Print Assumptions C13_example.
